@@ -224,7 +224,7 @@ spec fn svs(st: Seq<StyleDecl>) -> Seq<(SView, Importance)> { st.map(|i: int, x:
 //@sub /-> Vec<StyleDecl>/ ==> -> (styles_out: Vec<StyleDecl>)
 //@sub /let mut styles = Vec::new\(\);/ ==> let mut styles: Vec<StyleDecl> = Vec::new();
 //@sub /for decl in decls/ ==> for decl in it: decls
-//@sub 2 /if \*l == 0\.0/ ==> if f32_is_zero(*l)
+//@sub * /\*l == 0\.0/ ==> f32_is_zero(*l)
 //@sub /text: text\.clone\(\)/ ==> text: string_clone(text)
 //@auto C01 C18
 fn styles_from_properties(decls: &[parser::Declaration]) -> (styles_out: Vec<StyleDecl>)
